@@ -19,6 +19,11 @@ func (te *tableEngine) tableGameOpen() error {
 		return nil
 	}
 
+	// 桌次已關閉或已釋放，不開局
+	if te.isReleased || te.table.State.Status == TableStateStatus_TableClosed {
+		return nil
+	}
+
 	// 已經開始新的一手遊戲 (遊戲狀態尚未由 updater 寫回)，不做任何事
 	switch te.table.State.Status {
 	case TableStateStatus_TableGameOpened, TableStateStatus_TableGamePlaying, TableStateStatus_TableGameSettled:
